@@ -88,9 +88,10 @@ def divisible_by(x, k):
 class Env:
     """Per-case scratch directory for the filesystem domain."""
 
-    def __init__(self, fs=None):
+    def __init__(self, fs=None, defer=False):
         self.fs = fs
         self.root = None
+        self.defer = defer       # create the empty scratch directory only; populate() fills it later
 
     def path(self, name):
         return os.path.join(self.root, name)
@@ -100,6 +101,12 @@ class Env:
             base = os.path.join(VERIF, ".work")
             os.makedirs(base, exist_ok=True)
             self.root = tempfile.mkdtemp(prefix="fs-", dir=base)
+            if not self.defer:
+                self.populate()
+        return self
+
+    def populate(self):
+        if self.fs is not None:
             fs = self.fs
             with open(self.path("file_a"), "w", encoding="utf8") as f:
                 f.write(fs["file_a"])
@@ -119,7 +126,6 @@ class Env:
                     data = b"x"
                     info.size = len(data)
                     t.addfile(info, io.BytesIO(data))
-        return self
 
     def __exit__(self, *a):
         if self.root:
@@ -258,7 +264,8 @@ def tree(domain, depth):
         gen += [st.builds(lambda d, n: M(n, "dict", inner=d), md, st.sampled_from(["MatchesDict", "ContainsDict", "ContainedByDict"])),
                 st.builds(lambda m, an: M("AfterPreprocessing", "dict", fn="len", inner=m, annotate=an), i, st.booleans())]
     if domain == "obj":
-        gen += [st.builds(lambda a, b, upd: M("MatchesStructure", "obj", a=a, b=b, update=upd), st.one_of(st.none(), i), st.one_of(st.none(), i), st.one_of(st.none(), i)),
+        gen += [st.builds(lambda a, b, upd, keep: M("MatchesStructure", "obj", a=a, b=b, update=upd, keep=keep), st.one_of(st.none(), i), st.one_of(st.none(), i), st.one_of(st.none(), i),
+                          st.sampled_from(["derived", "derived", "receiver"])),
                 st.builds(lambda m, an: M("AfterPreprocessing", "obj", fn="attr_a", inner=m, annotate=an), i, st.booleans())]
     if domain == "str":
         gen += [st.builds(lambda m, an: M("AfterPreprocessing", "str", fn="len", inner=m, annotate=an), i, st.booleans()),
@@ -392,7 +399,10 @@ def build(spec, env):
         kw = {k: B(spec[k]) for k in ("a", "b") if spec.get(k) is not None}
         ms = tm.MatchesStructure(**kw)
         if spec.get("update") is not None:
-            ms = ms.update(a=B(spec["update"]), b=None)
+            derived = ms.update(a=B(spec["update"]), b=None)
+            if spec.get("keep", "derived") == "derived":
+                return derived
+            # update() returns a new matcher: the one it was called on keeps matching what it matched
         return ms
     if m == "MatchesStructure.byEquality":
         kw = {"a": spec["a"]}
@@ -628,7 +638,7 @@ def _ref(spec, v, env=None):
         return set(v) <= set(spec["inner"]) and all([R(ms, v[k]) for k, ms in spec["inner"].items() if k in v])
     if m == "MatchesStructure":
         kw = {k: spec[k] for k in ("a", "b") if spec.get(k) is not None}
-        if spec.get("update") is not None:
+        if spec.get("update") is not None and spec.get("keep", "derived") == "derived":
             kw["a"] = spec["update"]
             kw.pop("b", None)
         return all([R(ms, v[k]) for k, ms in kw.items()])
